@@ -65,6 +65,15 @@ def executeNop {P C : Type} (pats : Option (List P)) (m : P → C → Bool) (suc
     (exec : W → C → W × Except E R) (w : W) (cmd : C) : W × Except E R :=
   if nopDecision pats m cmd then (w, .ok success) else exec w cmd
 
+/-- `cursor.execute` (`cursor.py:138-143`), phases in the order of the code: the command is PREPARED first — session
+    variables inlined, client-side parameters substituted (`prep`; it raises for an undefined variable or a bad
+    format) — and only the prepared text is shown to the nop patterns -/
+def executePhased {P C T : Type} (prep : C → Except E T) (pats : Option (List P)) (m : P → T → Bool) (success : R)
+    (exec : W → T → W × Except E R) (w : W) (cmd : C) : W × Except E R :=
+  match prep cmd with
+  | .error e => (w, .error e)
+  | .ok t => executeNop pats m success exec w t
+
 /-- a history of commands on one connection with the option configured: the world after all of them.  `W` is the whole
     state a statement can touch — tables, rows, and the side tables holding comments and declared lengths -/
 def runCmds {P C : Type} (pats : Option (List P)) (m : P → C → Bool) (success : R)
